@@ -190,12 +190,87 @@ def run_one(ctx, rng, cands, d, status):
         ctx.sample({'lines_head': lines[:3], 'n_lines': len(lines), 'bytes': len(data), 'final_newline': final_nl})
 
 
+def thread_confinement(ctx, rng, cands, d):
+    """run mode in-process (backends.libwayland_debug_output.run_program with recorded streams): the only other thread is the
+    one that waits for the child; every call into the parser / connection manager / controller must happen on the thread
+    that called run_program - that is the assumption under which none of the monitors needs a lock."""
+    import threading
+    from backends.libwayland_debug_output import parse, run_program
+    from core import ConnectionManager, matcher
+    from core.output import Output, stream
+    from frontends.tui import Controller, Arguments, Mode
+    seen = {}
+
+    def wrap(cls, name):
+        orig = getattr(cls, name)
+
+        def f(self, *a, **k):
+            seen.setdefault(cls.__name__ + '.' + name, set()).add(threading.get_ident())
+            return orig(self, *a, **k)
+        setattr(cls, name, f)
+        return orig
+    saved = [(parse.Parser, 'handle_message', wrap(parse.Parser, 'handle_message')), (ConnectionManager, 'message', wrap(ConnectionManager, 'message')),
+             (Controller, 'connection_got_new_message', wrap(Controller, 'connection_got_new_message')), (Controller, 'process_command', wrap(Controller, 'process_command'))]
+    try:
+        lines = gen_stream(rng, cands)[:300]
+        data = ('\n'.join(lines) + '\n').encode('utf-8')
+        chunks, sname = gen_schedule(rng, data)
+        status = rng.choice([0, 3, 77])
+        planf = os.path.join(d, 'plan_tc.json')
+        report = os.path.join(d, 'report_tc.json')
+        json.dump({'report': report, 'stderr_chunks': [[c.hex(), dl] for c, dl in chunks], 'exit': status}, open(planf, 'w'))
+        events = []
+
+        class Rec(stream.Base):
+            def override_write(self, string):
+                events.append((threading.get_ident(), string))
+        env.load_protocols()        # main.main() loads the protocol descriptions before it builds the pipeline
+        env.reset_globals(False)
+        out = Output(False, True, Rec(), Rec())
+        cm = ConnectionManager()
+        ctl = Controller(out, cm, matcher.always, matcher.never)
+        args = Arguments(False, False, True, Mode.RUN, '', matcher.always, matcher.never, None, ['main.py'],
+                         ['/venv/bin/python', os.path.join(HELPERS, 'child.py')])
+        old = os.environ.get('VERIF_CHILD_PLAN')
+        os.environ['VERIF_CHILD_PLAN'] = planf
+        try:
+            rc = run_program(out, args, cm, ctl, ctl, lambda prompt: 'quit')
+        finally:
+            if old is None:
+                os.environ.pop('VERIF_CHILD_PLAN', None)
+            else:
+                os.environ['VERIF_CHILD_PLAN'] = old
+        me = threading.get_ident()
+        ctx.ev()
+        ctx.count('in_process_run_mode_sessions')
+        threads = set().union(*seen.values()) | {t for t, _ in events}
+        ctx.count('calls_observed_for_thread_confinement', sum(1 for _ in events))
+        ctx.setadd('show:threads_calling_into_the_pipeline', len(threads))
+        case = {'lines': lines, 'mode': 'in-process run_program', 'schedule': sname}
+        if threads != {me}:
+            ctx.violation('thread-confinement', 'the pipeline was entered from threads %r, run_program was called on %r (%r)' % (
+                sorted(threads), me, {k: sorted(v) for k, v in seen.items()}), case)
+        if rc != status:
+            ctx.violation('run-exit-status', 'run_program returned %r, the child exited %d' % (rc, status), case)
+        ref = []
+        for p in reference(lines):
+            ref.append(p)
+        got = [t for _, t in events]
+        if got != ref:
+            j = next((j for j in range(min(len(got), len(ref))) if got[j] != ref[j]), min(len(got), len(ref)))
+            ctx.violation('display-differs', 'in-process run mode: item %d is %r, the reference has %r' % (j, got[j:j + 1], ref[j:j + 1]), case)
+    finally:
+        for cls, name, orig in saved:
+            setattr(cls, name, orig)
+
+
 def run(ctx, spec):
     env.setup()
     cands = wlxml.shipped(env.REPO)
     rng = ctx.rng
     d = tempfile.mkdtemp(prefix='verif-c13-')
     try:
+        thread_confinement(ctx, rng, cands, d)
         for i in range(spec['n']):
             if spec['statuses'] == 'all' and i < 4:
                 status = (spec['status_base'] + i) % 256
